@@ -96,7 +96,7 @@ for p in sorted(glob.glob(os.path.join(V, "evidence", "C*.json"))):
 
 out.append("""### 7.4 Independent seeded changes (sub-agents given only the property text and a scratch worktree)
 
-Six rounds, one change per property and round; the second- and third-round agents were additionally told the one-line
+Seven rounds, one change per property and round; the second- and third-round agents were additionally told the one-line
 descriptions of the earlier changes for their property and asked for a different site and mechanism. Each change was confirmed by
 `tools/verify_seed.sh` (demo passes on HEAD, patch builds, suite 25/25, demo fails with the patch) and run against the checks with
 `tools/run_seed.sh` (apply to /repo, check, `git checkout`); `tools/all_seeds.sh` re-runs all of them against the current checks.
@@ -177,9 +177,16 @@ chunks through the tokener costs minutes per configuration (tried, removed); c06
 branch adds a byte twice, so the hash depends on the key's address modulo 4: the evaluator does not model uint32 / uint16 / uint8
 views of one buffer byte-accurately.
 
-Across the six rounds (120 changes): 67 were caught by the checks as they stood when the change arrived (25 of 40, then 11, 10, 12,
-9 of 20), 50 after a rule was added or shared, 2 are recorded as not caught, 1 was neutralised by a fix. The miss rate per round
-did not fall (the agents are told the earlier changes and move elsewhere), which is the honest measure of how much of each
+Seventh round (20 changes): caught as submitted 14 (c01g, c02g, c03g, c04g, c07g, c09g, c12g, c13g, c14g, c15g, c16g, c17g, c18g,
+c19g). Missed, and the rule each caused: c05g (C05.R7: no call through `_user_delete` is guarded by a test of the user data
+pointer), c06g (C06.R3i: when the growth an insert asks for fails, the insert returns failure with the table untouched), c08g
+(C08.R7: no path from one release of a pointer value to another release of the same value), c10g (C10.R5: the double setter has
+no path that skips the store on a floating-point equality test - +0.0 / -0.0), c11g (C11.R8: the public string functions hand the
+caller's length on unchanged), c20g (C20.R7: the result of open() is tested as negative / -1, never "> 0").
+
+Across the seven rounds (140 changes): 81 were caught by the checks as they stood when the change arrived (25 of 40, then 11, 10, 12,
+9, 14 of 20), 56 after a rule was added or shared, 2 are recorded as not caught, 1 was neutralised by a fix. The miss rate per round
+stayed between a third and a half until the last round (the agents are told the earlier changes and move elsewhere), which is the honest measure of how much of each
 property a rule set of this kind covers. Every added rule was then run against all stored refactorings.
 
 ### 7.5 Behaviour-preserving refactorings (the "never raises an alarm where the property holds" side)
@@ -227,7 +234,7 @@ A third suite, **B3-c04 .. B3-c19** (ten refactorings), was commissioned after t
 functions the newest rules read (the text -> integer helpers, the token -> member-name code of pointer and patch, the print buffer,
 the hash table's insert / lookup / delete / resize, the string set operation, the deep-copy routines, every function that releases
 a field or a global, the number state of the tokener, the member-name ownership of the tokener). What it found is listed with the
-false alarms of 7.2. `tools/par_regress.py` runs the whole regression - unchanged tree, the 56 refactorings x 20 checks, the 120
+false alarms of 7.2. `tools/par_regress.py` runs the whole regression - unchanged tree, the 56 refactorings x 20 checks, the 140
 seeded changes, the ~260 developer mutants - in parallel scratch worktrees with private analysis caches (about 40 minutes on 16
 cores), never touching /repo or /verif/evidence.
 
